@@ -67,7 +67,7 @@ class C02(Prop):
             'symmetry-aware) plus three drawn schedules. The real KFACPreconditioner runs on W simulated ranks (vkit/simdist) whose '
             'interleaving and async buffer read/write timing are drawn. Relations: (1) all ranks bit-identical after every step; (2) placement '
             'A under a second schedule with flipped buffer timing bit-identical to (1); (3) placement B within the conditioning-scaled tolerance '
-            'of A; (4) world-of-one K-FAC fed the union of the per-rank batches within the same tolerance. Non-trivial: W >= 2, some layer '
+            'of A; (4) world-of-one K-FAC fed the union of the per-rank batches within the same tolerance. Plus (kind "preempt") a systematic bounded-preemption enumeration: on four small fixed configurations every schedule deviating from the default at one (quick) / one or two (thorough) of the first 30/60 schedule points must give bit-identical gradients and no protocol violation; plus (thorough, kind "gloo") eight configurations replayed on real gloo to validate the simulator. Non-trivial: W >= 2, some layer '
             'whose inverse worker is not rank 0, for k < W some rank that is a pure receiver, and >= 1 rank switch inside a step.')
     assumptions = ['vkit/simdist reproduces gloo semantics for all_reduce/broadcast/new_group (validated against real gloo in the thorough tier of this check)',
                    'equal per-rank batch sizes and gradients averaged across ranks before step() (the documented data-parallel precondition)',
@@ -82,11 +82,67 @@ class C02(Prop):
         worlds = [1, 2, 2, 3, 4, 4, 6, 8] if tier == 'quick' else [1, 2, 3, 4, 4, 6, 8, 8, 12, 16]
         return _case(worlds)
 
-    enum_shards = {'quick': 1, 'thorough': 4}
+    enum_shards = {'quick': 4, 'thorough': 16}
+
+    PREEMPT_CONFIGS = [(2, 1, 'eigen', 25.0, True), (4, 2, 'inverse', 0, False), (3, 3, 'eigen', 1e-5, True), (4, 1, 'eigen', 0, True)]
+
+    def _preempt_case(self, ci):
+        W, k, method, cap, in_hook = self.PREEMPT_CONFIGS[ci]
+        spec = {'seed': 9, 'input': {'in': 3, 'lead': []}, 'layers': [
+            {'t': 'linear', 'in': 3, 'out': 4, 'bias': False, 'sub': False}, {'t': 'act', 'name': 'tanh'},
+            {'t': 'linear', 'in': 4, 'out': 2, 'bias': True, 'sub': False}]}
+        return {'W': W, 'k': k, 'fraction': 'float', 'colocate': True, 'heuristic': 'compute', 'cap': cap, 'symmetry': method == 'inverse',
+                'method': method, 'prediv': method == 'eigen', 'spec': spec, 'in_hook': in_hook, 'accum': 1, 'N': 2, 'style': 'gauss',
+                'hp': {'factor_update_steps': 1, 'inv_update_steps': 2, 'damping': 0.01, 'factor_decay': 0.9, 'kl_clip': 1e-3, 'lr': 0.1}}
+
+    def _preempt(self, case):
+        import torch
+        from vkit import kaisa
+        kc = self._preempt_case(case['config'])
+        program = [{'op': 'train', 'seed': t} for t in range(2)]
+        cache = self.__dict__.setdefault('_base', {})
+        if case['config'] not in cache:
+            base = kaisa.run_sim(kc, program, [], False)
+            if not base.ok:
+                return violation(f'protocol violation {base.violations[0]}', 'protocol:' + base.violations[0].kind)
+            cache[case['config']] = [[r['after'] for r in base.results[rk] if r['op'] == 'train'] for rk in range(kc['W'])]
+        sched = [0] * case['K']
+        for p, v in case['devs']:
+            sched[p] = v
+        res = kaisa.run_sim(kc, program, sched, case.get('flip', False))
+        labels = {'kind': 'preempt', 'W': kc['W'], 'ndev': len(case['devs'])}
+        if res.timed_out:
+            raise RuntimeError('simulation timed out (harness)')
+        if not res.ok:
+            v = res.violations[0]
+            return violation(f'{v} :: bounded-preemption schedule {case["devs"]} on config {self.PREEMPT_CONFIGS[case["config"]]}', 'protocol:' + v.kind, labels=labels)
+        for rk in range(kc['W']):
+            got = [r['after'] for r in res.results[rk] if r['op'] == 'train']
+            for t in range(2):
+                for n, g in cache[case['config']][rk][t].items():
+                    if not torch.equal(g, got[t][n]):
+                        return violation(f'step {t} rank {rk}: gradient {n} under schedule deviations {case["devs"]} (flip={case.get("flip")}) differs from the default schedule '
+                                         f'(config {self.PREEMPT_CONFIGS[case["config"]]})', 'schedule-dependence', labels=labels)
+        labels['nontrivial'] = True
+        return passed(True, labels, {'switches': res.switches})
 
     def enumerate(self, tier, shard, nshards):
-        # validation of the simulator against real gloo (thorough tier only): fixed configurations, both methods, three strategies
+        # (a) systematic bounded-preemption enumeration of schedules on four small configurations
+        K = 30 if tier == 'quick' else 60
+        i = 0
+        for ci in range(len(self.PREEMPT_CONFIGS)):
+            devsets = [[[p, v]] for p in range(K) for v in (1, 2)]
+            if tier == 'thorough':
+                devsets += [[[p, v], [q, 1]] for p in range(0, K, 2) for q in range(p + 1, K, 3) for v in (1, 2)]
+            for j, devs in enumerate(devsets):
+                if i % nshards == shard:
+                    yield {'kind': 'preempt', 'config': ci, 'devs': devs, 'K': K, 'flip': j % 2 == 1}
+                i += 1
+        # (b) validation of the simulator against real gloo (thorough tier only): fixed configurations, both methods, three strategies
         if tier != 'thorough':
+            return
+        nshards = min(nshards, 4)
+        if shard >= nshards:
             return
         spec = {'seed': 5, 'input': {'C': 2, 'H': 5, 'W': 5}, 'layers': [
             {'t': 'conv', 'cin': 2, 'cout': 3, 'k': [2, 2], 's': [1, 1], 'p': [0, 1], 'bias': True}, {'t': 'act', 'name': 'relu'},
@@ -152,6 +208,8 @@ class C02(Prop):
     def run_case(self, case):
         if case.get('kind') == 'gloo':
             return self._gloo(case)
+        if case.get('kind') == 'preempt':
+            return self._preempt(case)
         return self._main(case)
 
     def _main(self, case):
